@@ -42,3 +42,11 @@ Theorem C20_feature_map_ok :
   feature_map_ok facade_features impl_features derive_feature_names = true.
 Proof. exact Proofs.feature_map_holds. Qed.
 Print Assumptions C20_feature_map_ok.
+
+(** Cargo feature implications of both manifests: one facade derive feature switches on, in the impl crate, exactly
+    that feature (hence exactly its derives are registered and exposed); `full` exactly the derive features;
+    `std` / `default` none *)
+Theorem C20_feature_closure_exact :
+  closure_exact facade_features impl_features derive_feature_names = true.
+Proof. exact Proofs.closure_exact_holds. Qed.
+Print Assumptions C20_feature_closure_exact.
